@@ -458,3 +458,78 @@ def assume(t, decide, _memo=None):
         r = parts
     _memo[k] = (t, r)
     return r
+
+
+class NotEvaluable(Exception):
+    pass
+
+
+def eval_exact(t, env=None):
+    """exact evaluation (Fractions / bools) of a closed term built from numbers, env symbols, + * **, floor, mod, int,
+    abs, comparisons, and/or/not and phi; raises NotEvaluable naming the first construct that is none of these"""
+    import math
+    env = env or {}
+    h = t[0]
+    if t in env:
+        return env[t]
+    if h == "num":
+        return t[1]
+    if h == "bool":
+        return t[1]
+    if h == "add":
+        return sum((eval_exact(x, env) for x in t[1:]), Fraction(0))
+    if h == "mul":
+        r = Fraction(1)
+        for x in t[1:]:
+            r *= eval_exact(x, env)
+        return r
+    if h == "pow":
+        b, e = eval_exact(t[1], env), eval_exact(t[2], env)
+        if e.denominator != 1:
+            raise NotEvaluable("fractional power")
+        return b ** int(e)
+    if h == "phi":
+        return eval_exact(t[2] if eval_exact(t[1], env) else t[3], env)
+    if h == "cmp":
+        a, b = eval_exact(t[2], env), eval_exact(t[3], env)
+        return {"Eq": a == b, "NotEq": a != b, "Lt": a < b, "LtE": a <= b, "Gt": a > b, "GtE": a >= b}[t[1]]
+    if h == "and":
+        return all(eval_exact(x, env) for x in t[1:])
+    if h == "or":
+        return any(eval_exact(x, env) for x in t[1:])
+    if h == "not":
+        return not eval_exact(t[1], env)
+    if h == "call":
+        if t[1] in ("floor", "int", "abs", "mod", "float", "round"):
+            args = [eval_exact(x, env) for x in t[2:]]
+            if t[1] == "floor":
+                return Fraction(math.floor(args[0]))
+            if t[1] == "int":
+                return Fraction(int(args[0]))
+            if t[1] == "abs":
+                return abs(args[0])
+            if t[1] == "float":
+                return args[0]
+            if t[1] == "mod":
+                return args[0] % args[1]
+        raise NotEvaluable("call of %s" % t[1])
+    if h == "sym":
+        raise NotEvaluable("free symbol %s" % t[1])
+    raise NotEvaluable("term kind %s" % (h,))
+
+
+def lift_phi(t):
+    """distribute + and * over phi so that every phi sits above the arithmetic: a + phi(c, x, y) -> phi(c, a + x, a + y)"""
+    if not isinstance(t, tuple) or not t:
+        return t
+    h = t[0]
+    if h == "phi":
+        return T.phi(t[1], lift_phi(t[2]), lift_phi(t[3]))
+    if h in ("add", "mul"):
+        args = [lift_phi(x) for x in t[1:]]
+        for i, a in enumerate(args):
+            if a[0] == "phi":
+                mk = T.add if h == "add" else T.mul
+                return T.phi(a[1], lift_phi(mk(*(args[:i] + [a[2]] + args[i + 1:]))), lift_phi(mk(*(args[:i] + [a[3]] + args[i + 1:]))))
+        return (T.add if h == "add" else T.mul)(*args)
+    return t
